@@ -10,3 +10,7 @@ def guards_validators(f):
 def guards_parser_rules(f):
     fl = f.span.file or ''
     return fl in ('slicec/src/parsers/slice/grammar.rs', 'slicec/src/parsers/mod.rs', 'slicec/src/patchers/mod.rs', 'slicec/src/patchers/type_ref_patcher.rs') and not f.generated
+
+
+def guards_type_patcher(f):
+    return (f.span.file or '') == 'slicec/src/patchers/type_ref_patcher.rs' and not f.generated
